@@ -122,7 +122,7 @@ def kinds_of(model, variant_params):
     out = {}
     for p in variant_params:
         if p in ('amplitude', 'lookup_table'):
-            out[p] = 'noconv' if model in ('Const1D', 'ConstFlux1D', 'PowerLawFlux1D') else 'flux'
+            out[p] = 'noconv' if model in ('ConstFlux1D', 'PowerLawFlux1D') else 'flux'
         elif p in ('x_0', 'mean', 'x_break', 'points', 'x_cutoff') or p in WIDTHS:
             out[p] = 'own' if model == 'PowerLawFlux1D' else 'wave'
         elif p == 'temperature':
@@ -258,12 +258,12 @@ def harness_args(case):
         vals = [O.fl(x) for x in a['v']]
         un = a.get('u')
         k = kinds[n]
-        if un is None or (k == 'noconv' and model != 'Const1D'):
+        if un is None or k == 'noconv':
             out.append([n, {'v': qs(vals), 'u': un}])
             continue
         if k in ('wave', 'own'):
             conv = [h_wave(v, un) for v in vals]
-        elif k == 'flux' or k == 'noconv':        # Const1D: the only compatible units are the internal ones
+        elif k == 'flux':                         # Const1D has no reference wavelength: internal units only
             if case['cls'] == 'source':
                 lam = refw if refw is not None else [None] * len(vals)
                 conv = [h_photlam(v, un, None if l is None else l * (1 + z), K) for v, l in zip(vals, lam)]
@@ -479,7 +479,8 @@ def pick_units(rng, names, kinds, cls, model, focus=None, focus_unit=None, p_uni
         if k in ('wave', 'own'):
             out[n] = rng.choice(WAVE_UNITS + (WAVE_EXTRA if rng.random() < 0.1 else []))
         elif k == 'flux':
-            out[n] = rng.choice(FLUX_UNITS) if cls == 'source' else rng.choice(DIMLESS_UNITS)
+            out[n] = ('PHOTLAM' if model == 'Const1D' else rng.choice(FLUX_UNITS)) if cls == 'source' \
+                else rng.choice(DIMLESS_UNITS)
         elif k == 'noconv':
             out[n] = rng.choice(FLUX_UNITS) if model in ('ConstFlux1D', 'PowerLawFlux1D') else None
         elif k == 'temp':
@@ -495,10 +496,10 @@ def compatible_units(kind, cls, model):
     if kind in ('wave', 'own'):
         return [None] + WAVE_UNITS + WAVE_EXTRA
     if kind == 'flux':
+        if model == 'Const1D' and cls == 'source':
+            return [None, 'PHOTLAM']        # no reference wavelength: any other unit is refused (gen_reject)
         return [None] + (FLUX_UNITS if cls == 'source' else DIMLESS_UNITS)
     if kind == 'noconv':
-        if model == 'Const1D':
-            return [None, 'PHOTLAM'] if cls == 'source' else [None] + DIMLESS_UNITS
         return [None] + FLUX_UNITS
     if kind == 'temp':
         return [None] + TEMP_UNITS
@@ -717,6 +718,12 @@ def gen_reject(rng, K, BB, kind):
                 a['u'] = bad
         c.update(expect='NotImplementedError', tag='own_unit:' + bad)
         c.pop('native', None)
+    elif kind == 'const1d_unit':
+        c = gen_case(rng, K, BB, 'Const1D', 'source', rng.choice(ZS), ['amplitude'], focus='amplitude', focus_unit=None)
+        bad = rng.choice([u for u in FLUX_UNITS if u != 'PHOTLAM'])
+        c['args'][0][1]['u'] = bad
+        c['args'][0][1]['v'] = qs(flux_values(rng, bad, 1))
+        c.update(expect='SynphotError', tag='no_reference_wavelength:' + bad)
     elif kind == 'total_flux_unit':
         c = gen_case(rng, K, BB, 'GaussianFlux1D', 'source', rng.choice(ZS), ['total_flux', 'mean', 'fwhm'], focus='total_flux')
         bad = rng.choice(['Jy', 'FLAM', 'AA', 'one'])
@@ -740,7 +747,7 @@ def gen_reject(rng, K, BB, kind):
 
 
 REJECTS = ['count', 'OBMAG', 'VEGAMAG', 'AA', 'one', 'K', 'unsupported', 'not_model', 'n_models', 'throughput',
-           'wave_unit', 'generic_unit', 'own_unit', 'total_flux_unit', 'missing_reference']
+           'wave_unit', 'generic_unit', 'own_unit', 'total_flux_unit', 'missing_reference', 'const1d_unit']
 
 
 def classes_for(cls):
@@ -817,7 +824,7 @@ RULE = ('SourceSpectrum (z in {0, 1/2, 3}) and SpectralElement constructors on e
         'requests; reference wavelengths 1000-20000 A (dyadic), widths 10 A .. ref/6, linear fluxes log-uniform over 24 decades '
         '(8% negative), magnitudes in [-5, 30] (power laws in magnitudes: |alpha| <= 1/2), tables of 2-6 (thorough 2-24) points in either order; 16 sample wavelengths '
         'around the feature scaled by 1+z (box: never within 0.1 width of a jump). Invalid requests: count / mag(OB) / mag(VEGA) / '
-        'non-flux amplitudes on a source, unsupported and non-model classes, n_models != 1, dimensioned throughput, non-spectral '
+        'non-flux amplitudes on a source, a non-PHOTLAM flux amplitude for Const1D (no reference wavelength), unsupported and non-model classes, n_models != 1, dimensioned throughput, non-spectral '
         'wavelength units, wrong temperature / exponent / total-flux units, missing reference parameter, zero frequency. '
         'Non-trivial: at least one keyword is a Quantity, or the request is invalid.')
 
